@@ -1009,7 +1009,26 @@ def _templates(max_depth, max_stmts, nlifts):
             elif not num:
                 scope["numeric"].discard(name)
 
+        def escsens(scope):
+            """filters that receive the eval context / operators that look at Markup, on metacharacter-rich constants"""
+            k = pick(["join", "join", "replace", "replace", "xmlattr", "urlize", "concat", "add"])
+            def sm():
+                return leaf(pick(["str", "markup", "str"]), scope)
+            if k == "join":
+                return ["filter", "join", ["list", [sm() for _ in range(draw(I(1, 3)))]], [sm()] if chance(50) else [], []]
+            if k == "replace":
+                return ["filter", "replace", sm(), [sm(), sm()], []]
+            if k == "xmlattr":
+                return ["filter", "xmlattr", ["dict", [[c(kn), sm()] for kn in DKEYS[: draw(I(1, 2))]]], [], []]
+            if k == "urlize":
+                return ["filter", "urlize", ["concat", [c("http://x.y/?a=1&b=2 "), sm()]], [], []]
+            if k == "concat":
+                return ["concat", [sm(), sm()]]
+            return ["bin", "+", sm(), sm()]
+
         def out_expr(d, scope):
+            if chance(12):
+                return escsens(scope)
             return g(pick(["str", "str", "str", "any", "int", "float", "bool", "list", "markup", "num"]), d, scope)
 
         def stmt(depth, scope, conditional, in_macro):
@@ -1025,7 +1044,7 @@ def _templates(max_depth, max_stmts, nlifts):
                 return ["out", out_expr(d, scope)]
             if k == "set":
                 ty = pick(["int", "str", "float", "str", "any", "bool", "list"])
-                e = g(ty, d, scope)
+                e = escsens(scope) if ty == "str" and chance(25) else g(ty, d, scope)
                 name = pick(VARS)
                 bind(scope, name, ty, e, conditional)
                 return ["set", name, e]
@@ -1115,7 +1134,7 @@ def _templates(max_depth, max_stmts, nlifts):
         fin = "off"
         if chance(15):
             fin = pick(["none_empty", "env_none_empty", "ctx_none_empty"])
-        env = {"autoescape": chance(50), "finalize": fin, "undefined": pick(["default"] * 7 + ["strict", "chainable"])}
+        env = {"autoescape": pick([False, True]), "finalize": fin, "undefined": pick(["default"] * 7 + ["strict", "chainable"])}
         n = len(units(body))
         lifts = []
         for j in range(nlifts):
